@@ -99,6 +99,23 @@ class Attr:
         return f"attr {self.kind} " + " ".join(t.item() for t in self.toks)
 
 
+class OtherAttr:
+    """an attribute (or doc comment) that is none of the macro's business, written BETWEEN the unit attributes;
+    the macro leaves it on the struct, the model never sees it"""
+    kind = "other"
+    toks = []
+    parens = True
+
+    def __init__(self, text):
+        self.text = text
+
+    def rust(self):
+        return self.text
+
+    def item(self):
+        return None
+
+
 class Def:
     def __init__(self, name):
         self.name = name
@@ -134,7 +151,7 @@ class Def:
         g = 1 if self.generics else 0
         f = 1 if self.body.strip() not in ("{}", ";") else 0
         out = [f"item {self.name} {kind} {g} {f}", "args " + " ".join(t.item() for t in self.args)]
-        out += [a.item() for a in self.attrs]
+        out += [a.item() for a in self.attrs if a.kind != "other"]
         out.append("end")
         return "\n".join(out)
 
